@@ -95,6 +95,26 @@ CHECKS = {
               "BigNat evaluated through a Java override whose agreement with the TLA+ definitions is self-tested."),
         technique="TLA+/TLC: ForeignOps over BigNat generates scenarios, recorded gadget runs (honest and tampered via H1) validated as traces",
     ),
+    "C06": dict(
+        category="fault_enumeration",
+        text=("Curve.tla is an executable TLA+ model of secp256k1, BLS12-381 G1 and Jubjub over BigNat (affine group law, "
+              "scalar multiplication, multi-scalar product, subgroup membership; its constants are checked in-model - G on the "
+              "curve, r.G = identity - and against the constants the code reports). EccOps.tla gives domain, caller "
+              "preconditions and result of every in-circuit instruction (assign, add, double, negate, mul_by_constant, msm, "
+              "msm_by_bounded_scalars, msm_by_le_bits, scalars from bytes, is_equal, assertions, select, coordinate extraction, "
+              "point_from_coordinates, BLS subgroup assertion). MC_EccOps enumerates scenarios over operand classes "
+              "{identity, G, small multiples, P = Q, P = -Q}, scalar classes {0, 1, 2, r-1, r-2, r, r+1, 2^128-1, 2^128, "
+              "2^(bits-1)-1, random}, msm sizes, every pattern of scalar bounds, on-/off-curve and off-subgroup coordinates, "
+              "and checks that the model's group law is consistent with naming points by discrete logarithms. The driver "
+              "replays them into the standard library's chips under MockProver with inputs and outputs exposed as public "
+              "inputs; Ecc_Trace decides completeness and soundness of every run, also under tamper plans (hook H1)."),
+        design_ref="DESIGN.md 4/C06",
+        note=("Bounded adversary (single consistent fault, sampled indices, cheap operations only on quick); hash-to-curve "
+              "and Jubjub low-order points are not covered; msm sizes 1..3 on quick, 1..8 on thorough. Two open known findings "
+              "(BLS12-381 point_from_coordinates without subgroup check; mul_by_constant on the identity with a constant "
+              "above 128 bits), see known_findings.json."),
+        technique="TLA+/TLC: executable Curve model + EccOps semantics generate scenarios; recorded gadget runs (honest and tampered via H1) validated as traces",
+    ),
     "C08": dict(
         category="fault_enumeration",
         text=("PublicInputs.tla defines Encode/Decode for every exposable type (bit, byte, native, emulated elements of the "
